@@ -282,8 +282,10 @@ func cmdCheck(args []string) int {
 			why := "obligation not discharged: " + o.Result.Status
 			// try to confirm the counterexample on the real code (a few per run: each replay compiles a test)
 			if replaysDone < 4 && !*noReplay {
-				replaysDone++
 				o.Replay = replayObligation(o, *repo, od)
+				if o.Replay != nil && o.Replay.Test != "" {
+					replaysDone++ // only replays that compiled and ran a test count against the budget
+				}
 			}
 			rp := writeReplay(od, *prop, o, why)
 			suffix := ""
@@ -356,25 +358,30 @@ func cmdCheck(args []string) int {
 		"seed":        seed,
 		"level":       "proof",
 		"coverage": map[string]any{
-			"obligations":             nObl,
-			"discharged":              nDis,
-			"checker_cmd":             fmt.Sprintf("bin/govc check --property %s --tier %s", *prop, *tier),
-			"trusted_base":            tb,
+			"obligations":              nObl,
+			"discharged":               nDis,
+			"checker_cmd":              fmt.Sprintf("bin/govc check --property %s --tier %s", *prop, *tier),
+			"trusted_base":             tb,
 			"functions_under_contract": fnames,
-			"functions_proved":        proved,
-			"by_backend":              byBackend,
-			"solver_time_s":           round3(solverTime),
-			"slowest":                 slowest,
-			"vacuity_checks":          map[string]int{"reachable_confirmed_sat": canarySat, "inconclusive": canaryInconclusive},
-			"known_findings_seen":     knownSeen,
-			"samples":                 samples,
-			"units":                   unitReports,
-			"integers":                "mathematical integers (no overflow) unless stated",
-			"floats":                  "float64 treated as exact reals",
+			"functions_proved":         proved,
+			"by_backend":               byBackend,
+			"solver_time_s":            round3(solverTime),
+			"slowest":                  slowest,
+			"vacuity_checks":           map[string]int{"reachable_confirmed_sat": canarySat, "inconclusive": canaryInconclusive},
+			"known_findings_seen":      knownSeen,
+			"samples":                  samples,
+			"units":                    unitReports,
+			"integers":                 "mathematical integers (no overflow) unless stated",
+			"floats":                   "float64 treated as exact reals",
 		},
 		"assumptions": sortedKeys(assumptions),
 		"wall_s":      round3(time.Since(t0).Seconds()),
 		"violations":  violations,
+	}
+	if *tier == "thorough" && !*noEvidence {
+		cov := ev["coverage"].(map[string]any)
+		cov["must_fail_corpus"] = runCorpus(*prop, *repo, *verif)
+		fmt.Printf("must-fail corpus: %v\n", cov["must_fail_corpus"].(map[string]any)["summary"])
 	}
 	if !*noEvidence {
 		os.MkdirAll(filepath.Join(*verif, "evidence"), 0o755)
@@ -420,18 +427,18 @@ func replayConfirmed(o *Obligation) bool { return o.Result != nil && o.Result.St
 func writeReplay(dir, prop string, o *Obligation, why string) string {
 	rp := filepath.Join(dir, sanitizeFile(o.Name)+".replay.json")
 	m := map[string]any{
-		"property":   prop,
-		"obligation": o.Name,
-		"kind":       o.Kind,
-		"position":   o.Pos.String(),
-		"why":        why,
-		"status":     o.Result.Status,
-		"solver":     o.Result.Solver,
-		"model":      o.Result.Model,
+		"property":      prop,
+		"obligation":    o.Name,
+		"kind":          o.Kind,
+		"position":      o.Pos.String(),
+		"why":           why,
+		"status":        o.Result.Status,
+		"solver":        o.Result.Solver,
+		"model":         o.Result.Model,
 		"solver_output": truncate(o.Result.Raw, 4000),
-		"goal":       truncate(o.Goal.S, 4000),
-		"smt_script": filepath.Join(dir, sanitizeFile(o.Name)+".smt2"),
-		"note":       o.HeapNote,
+		"goal":          truncate(o.Goal.S, 4000),
+		"smt_script":    filepath.Join(dir, sanitizeFile(o.Name)+".smt2"),
+		"note":          o.HeapNote,
 	}
 	if o.Replay != nil {
 		m["replay_on_real_code"] = o.Replay
